@@ -11,6 +11,7 @@ import (
 	"fmt"
 	"math/rand/v2"
 	"os"
+	"runtime"
 	"runtime/debug"
 	"sort"
 	"strconv"
@@ -194,6 +195,13 @@ func cpuMillis() int64 {
 func (w *Worker) RunBlock(p *Property, block, nblocks int) {
 	c := &Ctx{Prop: w.Prop, Tier: w.Tier, Flavour: w.Flavour, Seed: w.Seed, Block: block, NBlocks: nblocks, w: w, index: -1}
 	w.progress(fmt.Sprintf("S %d", block))
+	// The number of Ps differs from block to block (the machine's own count for
+	// every fourth block, otherwise 3, 5, 7, 6, 2 or 1): code that sizes its
+	// work by GOMAXPROCS sees counts that are not powers of two as well.
+	if procs := []int{0, 3, 5, 7, 0, 6, 2, 1}[block%8]; procs > 0 {
+		old := runtime.GOMAXPROCS(procs)
+		defer runtime.GOMAXPROCS(old)
+	}
 	p.Run(c)
 	w.progress(fmt.Sprintf("E %d", block))
 }
